@@ -122,6 +122,14 @@ def case_peak_1d(ctx, nf, grid, layout, band, nanmask=None, depthkind="inf"):
         ctx.check(ctx.eq(pf[p], f[i]), "D-AT.freq", info=dict(spectrum=p))
         ctx.check(ctx.eq(pw[p], f[i] * twopi), "D-AT.omega")
         ctx.check(ctx.implies(ctx.lt(0, f[i]), ctx.eq(pp[p] * f[i], 1)), "D-AT.period")
+    # the documented default band is [0, inf): calling without arguments equals calling with (0, inf)
+    for nm in ("peak_index", "peak_frequency", "peak_period", "peak_angular_frequency", "peak_direction",
+               "peak_directional_spread"):
+        dflt = C.values(ctx.noraise("D-DEFAULT.raise", getattr(s, nm)))
+        full = C.values(ctx.noraise("D-DEFAULT.raise", getattr(s, nm), 0, np.inf))
+        for p in range(npts):
+            same = ctx.Or(ctx.eq(dflt[p], full[p]), ctx.And(ctx.isnan(dflt[p]), ctx.isnan(full[p])))
+            ctx.check(same, "D-DEFAULT", info=dict(method=nm, what="default band == (0, inf)"))
     # peak wavenumber: dispersion solver called with (2 pi f[peak], depth or inf if missing), default band
     if ctx.mode == "sym":
         ctx.patch(S, "inverse_intrinsic_dispersion_relation", _kstub)
